@@ -109,9 +109,17 @@ class _StdApi:
             Iterating over these yields a bytecode operation as Instruction instances.
             """
 
-            def __init__(self, x, first_line=None, current_offset=None, opc=None):
+            def __init__(
+                self,
+                x,
+                first_line=None,
+                current_offset=None,
+                opc=None,
+                show_caches=False,
+            ):
                 if opc is None:
                     opc = api_opc
+                self.show_caches = show_caches
                 _Bytecode.__init__(
                     self,
                     x,
@@ -119,6 +127,12 @@ class _StdApi:
                     first_line=first_line,
                     current_offset=current_offset,
                 )
+
+            def __iter__(self):
+                # Like dis.Bytecode, inline CACHE entries (3.11+) are shown only on request.
+                for inst in _Bytecode.__iter__(self):
+                    if self.show_caches or inst.opname != "CACHE":
+                        yield inst
 
         self.Bytecode = Bytecode
 
@@ -236,7 +250,7 @@ class _StdApi:
             is_graal=self.is_graal,
         )
 
-    def get_instructions(self, x, first_line=None):
+    def get_instructions(self, x, first_line=None, show_caches=False):
         """Iterator for the opcodes in methods, functions or code
 
         Generates a series of Instruction named tuples giving the details of
@@ -247,7 +261,10 @@ class _StdApi:
         Otherwise, the source line information (if any) is taken directly from
         the disassembled code object.
         """
-        return self.Bytecode(x).get_instructions(x, first_line)
+        # Like dis.get_instructions, inline CACHE entries (3.11+) are shown only on request.
+        for inst in self.Bytecode(x).get_instructions(x, first_line):
+            if show_caches or inst.opname != "CACHE":
+                yield inst
 
     def findlinestarts(self, code):
         """Find the offsets in a byte code which are start of lines in the source.
